@@ -117,14 +117,19 @@ CHECKS = {
         engine="MeshOps",
         technique="TLA+ relational semantics of mesh generators/operations on integer lattice meshes (MeshOps.tla: exact signed volumes incl. "
                   "Simpson-exact trilinear hexahedra, centroids, distance bags, face incidence); program space enumerated by the TLC model "
-                  "MeshOpsMC.tla (type-state machine) and every program step judged by TLC; fixed-point module MeshGen.tla for non-lattice generators",
-        text="TLC explores every sequence of operations applicable to the current cell type from five generator seeds up to the depth bound, "
+                  "MeshOpsMC.tla (type-state machine) and every program step judged by TLC; fixed-point module MeshGen.tla for non-lattice generators; "
+                  "Bag.tla / BagMC.tla / BagTrace.tla: program space of mesh-container operations executed on real MeshContainers, every step judged",
+        text="TLC explores every sequence of operations applicable to the current cell type from nine generator seeds (boxes, grids from float and "
+             "integer vectors, trapezoid cells) up to the depth bound, "
              "checks the cell-type/dimension typing invariants and exports the programs; each distinct program prefix is executed with the real "
              "Mesh methods and TLC decides, in exact integer geometry, positive orientation (all 27 Simpson points of each hexahedron), covered "
              "volume (generator box, preserved by rigid motions/mirror/triangulation/midpoint insertion/concatenate/stack/disconnect/merge, "
              "z*area for expand, first moment of the section for revolve), preserved cell shapes, unmoved corners, inserted points = centroids "
-             "of edges/faces/cells, conforming faces, no unused/duplicate points, double flip = identity. Circle/Triangle/Lagrange generators "
-             "and generic angles/normals are judged in 2^-20 fixed point.",
+             "of edges/faces/cells (as a set and, for the quadratic cell types, at their place in the connectivity), cell centroids of the "
+             "order-zero conversion, fill_between, merge_duplicate_cells, conforming faces, no unused/duplicate points, double flip = identity. "
+             "Circle/Triangle/Lagrange generators, generic angles/normals and merging of near-duplicates through every entry point are judged "
+             "in 2^-20 fixed point. Mesh containers: append / += / pop / merge / stack / copy / vertex mesh keep one shared point array, valid "
+             "indices and every cell's corner coordinates.",
         note="Lattice meshes with <= 16 cells; quick: depth 2 (1451 programs, exhaustive), thorough: depth 3 (sampled 6000 of 23318). Clauses about "
              "the child presuppose the same fact about the parent (e.g. after disconnect duplicates are intended). Revolution is claimed for "
              "right-handed sweeps of sections on the positive side of the axis (the documented usage); mirror/flip for linear cell types.",
